@@ -570,6 +570,94 @@ theorem updateV_sound (a b c r : Val) (hwa : WF a) (hwb : WF b) (hwc : WF c) (h 
       exact hty z (mem_eraseKV' keyLt hz)
     · cases h
 
+/-! ### big maps: the rules on `big_map k v` are the rules on `map k v` -/
+theorem wf_big_as_map {k v : Ty} {items : List Val} (h : WF (.bigMap k v items)) : WF (.map k v items) := by
+  simpa [WF, HasTy, checkVal, typeOf] using h
+
+theorem wf_map_as_big {k v : Ty} {items : List Val} (h : WF (.map k v items)) : WF (.bigMap k v items) := by
+  simpa [WF, HasTy, checkVal, typeOf] using h
+
+theorem typeOf_notBig {b : Val} (hw : WF b) (h : ∀ k v items, b ≠ .bigMap k v items) : ∀ k v, typeOf b ≠ .bigMap k v := by
+  intro k v e
+  have hc : checkVal Mode.strict b (.bigMap k v) = true := hasTy_iff.mpr ⟨hw, e⟩
+  cases b <;> first | (simp [checkVal] at hc; done) | skip
+  all_goals first | exact absurd rfl (h _ _ _) | (rename_i t _; cases t <;> simp [checkVal] at hc)
+
+theorem memTyB_notBig (x t : Ty) (h : ∀ k v, t ≠ .bigMap k v) : memTyB x t = memTy x t := by
+  cases t <;> first | rfl | exact absurd rfl (h _ _)
+
+theorem getTyB_notBig (x t : Ty) (h : ∀ k v, t ≠ .bigMap k v) : getTyB x t = getTy x t := by
+  cases t <;> first | rfl | exact absurd rfl (h _ _)
+
+theorem updateTyB_notBig (x o t : Ty) (h : ∀ k v, t ≠ .bigMap k v) : updateTyB x o t = updateTy x o t := by
+  cases t <;> first | (cases o <;> rfl) | exact absurd rfl (h _ _)
+
+theorem memB_sound (a b r : Val) (hwa : WF a) (hwb : WF b) (h : Spec.memB a b = .ok r) :
+    WF r ∧ memTyB (typeOf a) (typeOf b) = some (typeOf r) := by
+  by_cases hb : ∃ k v items, b = .bigMap k v items
+  · obtain ⟨k, v, items, rfl⟩ := hb
+    exact memV_sound a (.map k v items) r hwa (wf_big_as_map hwb) h
+  · have hn : ∀ k v items, b ≠ .bigMap k v items := fun k v items e => hb ⟨k, v, items, e⟩
+    rw [memB_notBig a b hn] at h
+    rw [memTyB_notBig _ _ (typeOf_notBig hwb hn)]
+    exact memV_sound a b r hwa hwb h
+
+theorem getB_sound (a b r : Val) (hwa : WF a) (hwb : WF b) (h : Spec.getB a b = .ok r) :
+    WF r ∧ getTyB (typeOf a) (typeOf b) = some (typeOf r) := by
+  by_cases hb : ∃ k v items, b = .bigMap k v items
+  · obtain ⟨k, v, items, rfl⟩ := hb
+    exact getV_sound a (.map k v items) r hwa (wf_big_as_map hwb) h
+  · have hn : ∀ k v items, b ≠ .bigMap k v items := fun k v items e => hb ⟨k, v, items, e⟩
+    rw [getB_notBig a b hn] at h
+    rw [getTyB_notBig _ _ (typeOf_notBig hwb hn)]
+    exact getV_sound a b r hwa hwb h
+
+/-- UPDATE on a big map is UPDATE on the map of its bindings, re-wrapped -/
+theorem updateB_big (x o : Val) (k v : Ty) (items : List Val) (r : Val) (h : Spec.updateB x o (.bigMap k v items) = .ok r) :
+    ∃ items', r = .bigMap k v items' ∧ Spec.updateV x o (.map k v items) = .ok (.map k v items') := by
+  cases o <;> first | (simp [Spec.updateB, Spec.updateV] at h; done) | skip
+  all_goals
+    simp only [Spec.updateB] at h
+    split at h
+    · rename_i hc
+      simp only [Res.ok.injEq] at h
+      exact ⟨_, h.symm, by simp only [Spec.updateV, hc, if_true]⟩
+    · cases h
+
+theorem updateB_sound (a b c r : Val) (hwa : WF a) (hwb : WF b) (hwc : WF c) (h : Spec.updateB a b c = .ok r) :
+    WF r ∧ updateTyB (typeOf a) (typeOf b) (typeOf c) = some (typeOf r) := by
+  by_cases hb : ∃ k v items, c = .bigMap k v items
+  · obtain ⟨k, v, items, rfl⟩ := hb
+    obtain ⟨items', rfl, hv⟩ := updateB_big a b k v items r h
+    obtain ⟨h1, h2⟩ := updateV_sound a b (.map k v items) (.map k v items') hwa hwb (wf_big_as_map hwc) hv
+    refine ⟨wf_map_as_big h1, ?_⟩
+    simp only [typeOf] at h2 ⊢
+    generalize typeOf b = tb at h2 ⊢
+    cases tb <;> simp [updateTyB, updateTy] at h2 ⊢
+    exact h2
+  · have hn : ∀ k v items, c ≠ .bigMap k v items := fun k v items e => hb ⟨k, v, items, e⟩
+    rw [updateB_notBig a b c hn] at h
+    rw [updateTyB_notBig _ _ _ (typeOf_notBig hwc hn)]
+    exact updateV_sound a b c r hwa hwb hwc h
+
+/-- the updated collection has the type of the old one -/
+theorem updateB_typeOf {a b c old m' : Val} (hg : Spec.getB a c = .ok old) (hu : Spec.updateB a b c = .ok m') :
+    typeOf m' = typeOf c := by
+  by_cases hb : ∃ k v items, c = .bigMap k v items
+  · obtain ⟨k, v, items, rfl⟩ := hb
+    obtain ⟨items', rfl, _⟩ := updateB_big a b k v items m' hu
+    rfl
+  · have hn : ∀ k v items, c ≠ .bigMap k v items := fun k v items e => hb ⟨k, v, items, e⟩
+    rw [getB_notBig a c hn] at hg
+    rw [updateB_notBig a b c hn] at hu
+    cases c <;> first | (simp [Spec.getV] at hg; done) | skip
+    cases b <;> first | (simp [Spec.updateV] at hu; done) | skip
+    all_goals
+      simp only [Spec.updateV] at hu
+      split at hu
+      · simp only [Res.ok.injEq] at hu; subst hu; rfl
+      · cases hu
+
 end Interp
 
 namespace Interp
@@ -772,12 +860,12 @@ theorem sound_SUB_MUTEZ (hev : Spec.step env .SUB_MUTEZ st = .ok st') :
 
 theorem sound_MEM (hev : Spec.step env .MEM st = .ok st') :
     StackWF st' ∧ Typing.step .MEM (st.map typeOf) = some (.ok (st'.map typeOf)) :=
-  sound_binop env st st' hw .MEM Spec.memV memTy (fun _ _ _ => rfl) rfl (fun a => by cases a <;> rfl) (fun _ _ _ => rfl)
-    memV_sound hev
+  sound_binop env st st' hw .MEM Spec.memB memTyB (fun _ _ _ => rfl) rfl (fun a => by cases a <;> rfl) (fun _ _ _ => rfl)
+    memB_sound hev
 theorem sound_GET (hev : Spec.step env .GET st = .ok st') :
     StackWF st' ∧ Typing.step .GET (st.map typeOf) = some (.ok (st'.map typeOf)) :=
-  sound_binop env st st' hw .GET Spec.getV getTy (fun _ _ _ => rfl) rfl (fun a => by cases a <;> rfl) (fun _ _ _ => rfl)
-    getV_sound hev
+  sound_binop env st st' hw .GET Spec.getB getTyB (fun _ _ _ => rfl) rfl (fun a => by cases a <;> rfl) (fun _ _ _ => rfl)
+    getB_sound hev
 
 theorem sound_UPDATE (hev : Spec.step env .UPDATE st = .ok st') :
     StackWF st' ∧ Typing.step .UPDATE (st.map typeOf) = some (.ok (st'.map typeOf)) := by
@@ -786,9 +874,9 @@ theorem sound_UPDATE (hev : Spec.step env .UPDATE st = .ok st') :
   · cases a <;> simp [Spec.step] at hev
   · cases a <;> simp [Spec.step] at hev
   rw [stackWF_cons, stackWF_cons, stackWF_cons] at hw
-  have hs : Spec.step env .UPDATE (a :: b :: c :: st) = (Spec.updateV a b c).bind fun r => .ok (r :: st) := rfl
+  have hs : Spec.step env .UPDATE (a :: b :: c :: st) = (Spec.updateB a b c).bind fun r => .ok (r :: st) := rfl
   rw [hs] at hev
-  cases hq : Spec.updateV a b c with
+  cases hq : Spec.updateB a b c with
   | stuck => simp [hq] at hev
   | failed _ => simp [hq] at hev
   | rtfail => simp [hq] at hev
@@ -797,9 +885,9 @@ theorem sound_UPDATE (hev : Spec.step env .UPDATE st = .ok st') :
   | ok r =>
     simp only [hq, rbind_ok, Res.ok.injEq] at hev
     subst hev
-    obtain ⟨h1, h2⟩ := updateV_sound a b c r hw.1 hw.2.1 hw.2.2.1 hq
+    obtain ⟨h1, h2⟩ := updateB_sound a b c r hw.1 hw.2.1 hw.2.2.1 hq
     have ht : Typing.step .UPDATE (typeOf a :: typeOf b :: typeOf c :: st.map typeOf)
-        = (updateTy (typeOf a) (typeOf b) (typeOf c)).map fun t => .ok (t :: st.map typeOf) := rfl
+        = (updateTyB (typeOf a) (typeOf b) (typeOf c)).map fun t => .ok (t :: st.map typeOf) := rfl
     simp [ht, h2, stackWF_cons, h1, hw.2.2.2]
 
 theorem sound_GET_AND_UPDATE (hev : Spec.step env .GET_AND_UPDATE st = .ok st') :
@@ -810,17 +898,17 @@ theorem sound_GET_AND_UPDATE (hev : Spec.step env .GET_AND_UPDATE st = .ok st') 
   · cases a <;> simp [Spec.step] at hev
   rw [stackWF_cons, stackWF_cons, stackWF_cons] at hw
   have hs : Spec.step env .GET_AND_UPDATE (a :: b :: c :: st)
-      = (Spec.getAndUpdateV a b c).bind fun r => .ok (r.1 :: r.2 :: st) := rfl
+      = (Spec.getAndUpdateB a b c).bind fun r => .ok (r.1 :: r.2 :: st) := rfl
   rw [hs] at hev
-  unfold Spec.getAndUpdateV at hev
-  cases hg : Spec.getV a c with
+  unfold Spec.getAndUpdateB at hev
+  cases hg : Spec.getB a c with
   | stuck => simp [hg] at hev
   | failed _ => simp [hg] at hev
   | rtfail => simp [hg] at hev
   | oof => simp [hg] at hev
   | offguard => simp [hg] at hev
   | ok old =>
-    cases hu : Spec.updateV a b c with
+    cases hu : Spec.updateB a b c with
     | stuck => simp [hg, hu] at hev
     | failed _ => simp [hg, hu] at hev
     | rtfail => simp [hg, hu] at hev
@@ -829,20 +917,13 @@ theorem sound_GET_AND_UPDATE (hev : Spec.step env .GET_AND_UPDATE st = .ok st') 
     | ok m' =>
       simp only [hg, hu, rbind_ok, Res.ok.injEq] at hev
       subst hev
-      obtain ⟨g1, g2⟩ := getV_sound a c old hw.1 hw.2.2.1 hg
-      obtain ⟨u1, u2⟩ := updateV_sound a b c m' hw.1 hw.2.1 hw.2.2.1 hu
+      obtain ⟨g1, g2⟩ := getB_sound a c old hw.1 hw.2.2.1 hg
+      obtain ⟨u1, u2⟩ := updateB_sound a b c m' hw.1 hw.2.1 hw.2.2.1 hu
       have ht : Typing.step .GET_AND_UPDATE (typeOf a :: typeOf b :: typeOf c :: st.map typeOf)
-          = (updateTy (typeOf a) (typeOf b) (typeOf c)).bind fun t =>
-              (getTy (typeOf a) t).map fun o => .ok (o :: t :: st.map typeOf) := rfl
+          = (updateTyB (typeOf a) (typeOf b) (typeOf c)).bind fun t =>
+              (getTyB (typeOf a) t).map fun o => .ok (o :: t :: st.map typeOf) := rfl
       -- the updated map has the type of the old one
-      have hsame : typeOf m' = typeOf c := by
-        cases c <;> first | (simp [Spec.getV] at hg; done) | skip
-        cases b <;> first | (simp [Spec.updateV] at hu; done) | skip
-        all_goals
-          simp only [Spec.updateV] at hu
-          split at hu
-          · simp only [Res.ok.injEq] at hu; subst hu; rfl
-          · cases hu
+      have hsame : typeOf m' = typeOf c := updateB_typeOf hg hu
       refine ⟨by simp [stackWF_cons, g1, u1, hw.2.2.2], ?_⟩
       simp only [List.map_cons, ht, u2, Option.bind_some, hsame, g2, Option.map_some]
 
@@ -922,17 +1003,18 @@ theorem sound_APPLY (hev : Spec.step env .APPLY st = .ok st') :
   simp only [Spec.step] at hev
   split at hev
   · rename_i hta
+    obtain ⟨hta, hpu⟩ := hta
     simp at hev; subst hev
     rw [wf_lam] at hwb
-    refine ⟨?_, by simp [Typing.step, typeOf, hta]⟩
+    refine ⟨?_, by simp [Typing.step, typeOf, hta, hpu]⟩
     rw [stackWF_cons]
     refine ⟨?_, hw⟩
     rw [wf_lam]
     have hx : checkVal Mode.strict a ta = true := hasTy_iff.mpr ⟨hwa, hta⟩
     unfold BodyTy at hwb ⊢
     rcases hwb with hb | hb
-    · left; simp [typeInstr, typeSeq, hx, Typing.step, hb]
-    · right; simp [typeInstr, typeSeq, hx, Typing.step, hb]
+    · left; simp [typeInstr, typeSeq, hx, hpu, Typing.step, hb]
+    · right; simp [typeInstr, typeSeq, hx, hpu, Typing.step, hb]
   · simp at hev
 
 end
@@ -1186,6 +1268,31 @@ theorem unV_sound (env : Env) (i : Instr) (a r : Val) (hwa : WF a) (h : Spec.unV
       · split at h
         · simp at h; subst h; simp [unTy, packTy, hp, typeOf]
         · simp at h
+  · -- UNPACK
+    rename_i t
+    simp only [Spec.unV] at h
+    unfold Spec.unpackV at h
+    split at h
+    · rename_i b
+      split at h
+      · simp at h
+      · rename_i hu
+        simp only [Bool.not_eq_true', Bool.not_eq_false] at hu
+        have hnone : WF (.none t) ∧ unTy (.UNPACK t) (typeOf (.bytes b)) = some (typeOf (.none t)) := by
+          simp [WF, HasTy, checkVal, typeOf, unTy, unpackTy, hu]
+        split at h
+        · split at h
+          · rename_i v hv
+            simp at h; subst h
+            obtain ⟨d, _, hd⟩ := Option.bind_eq_some_iff.mp hv
+            have hc := (readVal_wf env.readTimestamp Mode.strict t hu d v hd).1
+            have hty : typeOf v = t := (hasTy_iff.mp hc).2
+            refine ⟨?_, by simp [unTy, unpackTy, hu, typeOf, hty]⟩
+            show HasTy (.some v) (typeOf (.some v))
+            simp only [typeOf, HasTy, checkVal, hty]; exact hc
+          · simp at h; subst h; exact hnone
+        · simp at h; subst h; exact hnone
+    · simp at h
 
 section
 variable (env : Env) (st st' : List Val) (hw : StackWF st)
@@ -1238,6 +1345,25 @@ theorem sound_TRANSFER_TOKENS (env : Env) (st st' : List Val) (hw : StackWF st)
       rw [stackWF_cons, wf_opTransfer]
       exact ⟨hasTy_iff.mpr ⟨hw.1, ht⟩, hw.2.2.2⟩
     · simp at hev
+  · simp at hev
+
+theorem sound_CHECK_SIGNATURE (env : Env) (st st' : List Val) (hw : StackWF st)
+    (hev : Spec.step env .CHECK_SIGNATURE st = .ok st') :
+    StackWF st' ∧ Typing.step .CHECK_SIGNATURE (st.map typeOf) = some (.ok (st'.map typeOf)) := by
+  rcases st with _ | ⟨a, _ | ⟨b, _ | ⟨c, st⟩⟩⟩
+  · simp [Spec.step] at hev
+  · simp [Spec.step] at hev
+  · simp [Spec.step] at hev
+  rw [stackWF_cons, stackWF_cons, stackWF_cons] at hw
+  have hs : Spec.step env .CHECK_SIGNATURE (a :: b :: c :: st)
+      = (Spec.checkSignatureV env a b c).bind fun r => .ok (r :: st) := rfl
+  rw [hs] at hev
+  unfold Spec.checkSignatureV at hev
+  split at hev
+  · simp at hev; subst hev
+    refine ⟨?_, by simp [Typing.step, checkSignatureTy, typeOf]⟩
+    rw [stackWF_cons]
+    exact ⟨by simp [WF, HasTy, checkVal, typeOf], hw.2.2.2⟩
   · simp at hev
 
 /-- PUSH and LAMBDA need the static check of their literal; every other rule without sub-programs is sound as is -/
@@ -1355,8 +1481,22 @@ theorem step_sound (env : Env) (i : Instr) (st st' : List Val) (hw : StackWF st)
   case SELF ep t =>
     simp [Spec.step] at hev; subst hev; simp [Typing.step, typeOf, stackWF_cons, hw, wf_contract]
   case TRANSFER_TOKENS => exact sound_TRANSFER_TOKENS env st st' hw hev
+  case CHECK_SIGNATURE => exact sound_CHECK_SIGNATURE env st st' hw hev
+  case EMPTY_BIG_MAP k v =>
+    simp only [Spec.step, Spec.stepMore, Spec.stepExt] at hev
+    split at hev
+    · rename_i hc
+      simp only [Res.ok.injEq] at hev; subst hev
+      simp only [Bool.and_eq_true] at hc
+      refine ⟨?_, by simp [Typing.step, Typing.stepMore, Typing.stepExt, hc, typeOf]⟩
+      rw [stackWF_cons]
+      exact ⟨by simp [WF, HasTy, checkVal, checkVals, typeOf], hw⟩
+    · cases hev
   case PACK =>
     exact sound_unop env st st' hw .PACK (Spec.unV env .PACK) (unTy .PACK) (fun _ _ => rfl) rfl
       (fun _ _ => rfl) (unV_sound env .PACK) hev
+  case UNPACK t =>
+    exact sound_unop env st st' hw (.UNPACK t) (Spec.unV env (.UNPACK t)) (unTy (.UNPACK t)) (fun _ _ => rfl) rfl
+      (fun _ _ => rfl) (unV_sound env (.UNPACK t)) hev
 
 end Interp
